@@ -64,13 +64,21 @@ pub fn analyze_dir(
             .path();
 
         if file_path.is_dir() {
-            qa_locations.extend(analyze_dir(
+            //Merge the findings of the nested dir into the findings collected so far
+            let nested_locations = analyze_dir(
                 file_path
                     .as_os_str()
                     .to_str()
                     .expect("Could not get nested dir"),
                 qa.clone(),
-            ))
+            );
+
+            for (pattern, mut file_matches) in nested_locations {
+                qa_locations
+                    .entry(pattern)
+                    .or_insert(vec![])
+                    .append(&mut file_matches);
+            }
         } else {
             let file_name = file_path
                 .file_name()
